@@ -109,6 +109,17 @@ def strat_state(draw, tier):
                       .encode("utf-8")[:iobuf_size]) for _ in range(nblocks)]
         blocks = [b64(base64.b64decode(b).decode("utf-8", "ignore")
                       .encode("utf-8")) for b in blocks]
+    # a second console buffer on a chip whose block size may differ
+    probe2 = None
+    if draw(st.booleans()):
+        size2 = draw(st.sampled_from([16, 32, 64, 100]))
+        chip2 = draw(st.sampled_from([c for c in coords
+                                      if list(c) not in silent]))
+        probe2 = {"chip": list(chip2), "core": draw(st.integers(0, 17)),
+                  "iobuf_size": iobuf_size if chip2 == probe_chip else size2,
+                  "blocks": [b64(draw(st.binary(min_size=1, max_size=(
+                      iobuf_size if chip2 == probe_chip else size2))))
+                      for _ in range(draw(st.integers(1, 3)))]}
     vcpu = {}
     for f in ["r0", "r1", "r2", "r3", "r4", "r5", "r6", "r7", "psr", "sp",
               "lr", "mbox_ap_msg", "mbox_mp_msg", "sw_file", "sw_line",
@@ -131,7 +142,7 @@ def strat_state(draw, tier):
             "probe": {"chip": list(probe_chip),
                       "core": draw(st.integers(0, 17)), "vcpu": vcpu,
                       "iobuf_size": iobuf_size, "blocks": blocks,
-                      "text": text_blocks,
+                      "text": text_blocks, "second": probe2,
                       "diag": draw(st.lists(st.integers(0, 0xffffffff),
                                             min_size=16, max_size=16))}}
 
@@ -196,6 +207,22 @@ def check_state(case):
                         b"\xee" * (pr["iobuf_size"] - len(blocks[i])))
         addr = here
     pchip.mem.write(pchip.vcpu_addr(pcore, "iobuf"), struct.pack("<I", addr))
+    p2 = pr.get("second")
+    if p2 and (tuple(p2["chip"]), p2["core"]) == ((px, py), pcore):
+        p2 = None
+    if p2:
+        chip2 = m.chips[tuple(p2["chip"])]
+        chip2.sv_write("iobuf_size", p2["iobuf_size"])
+        blocks2 = [base64.b64decode(b) for b in p2["blocks"]]
+        addr2 = 0
+        for i in reversed(range(len(blocks2))):
+            here = scamp.IOBUF_AREA + (8 + i) * 0x400
+            chip2.mem.write(here, struct.pack("<4I", addr2, 0, 0,
+                                              len(blocks2[i])) + blocks2[i] +
+                            b"\xdd" * (p2["iobuf_size"] - len(blocks2[i])))
+            addr2 = here
+        chip2.mem.write(chip2.vcpu_addr(p2["core"], "iobuf"),
+                        struct.pack("<I", addr2))
     pchip.mem.write(scamp.RTR_DIAG, struct.pack("<16I", *pr["diag"]))
     if pcore < len(spec[(px, py)]["states"]):
         pchip.mem.write(pchip.vcpu_addr(pcore, "cpu_state"),
@@ -289,6 +316,8 @@ def check_state(case):
             status = mc.get_processor_status(pcore, px, py)
             raw = mc.get_iobuf_bytes(pcore, px, py)
             text = mc.get_iobuf(pcore, px, py) if pr["text"] else None
+            raw2 = (mc.get_iobuf_bytes(p2["core"], *p2["chip"]) if p2
+                    else None)
         exp_p2p = dict(((x, y), m.p2p_entry(m.chips[(0, 0)], x, y))
                        for x in range(case["w"]) for y in range(case["h"]))
         require(dict((k, int(v)) for k, v in p2p.items()) == exp_p2p,
@@ -349,6 +378,13 @@ def check_state(case):
                 {"got": repr(raw[:40]), "blocks": len(blocks)})
         if text is not None:
             require(text == b"".join(blocks).decode("utf-8"), "get_iobuf", {})
+        if p2:
+            require(raw2 == b"".join(blocks2), "console buffer of a second "
+                    "core (read with the same controller) is not the "
+                    "concatenation of its chained blocks",
+                    {"got": repr(raw2[:40]), "expected":
+                     repr(b"".join(blocks2)[:40]),
+                     "block_sizes": [pr["iobuf_size"], p2["iobuf_size"]]})
     if m.violations:
         raise Violation("malformed command: %s" % m.violations[0][0],
                         m.violations[0][1])
@@ -420,7 +456,9 @@ def check_state(case):
     return {"nontrivial": dead_or_silent and len(patterns) >= 2,
             "classes": cls + (["silent"] if case["silent"] else []) +
                        (["sparse"] if case["w"] > 12 or case["h"] > 12
-                        else []) + ["iobuf%d" % len(blocks)]}
+                        else []) + ["iobuf%d" % len(blocks)] + (
+                            ["second-iobuf-other-size"] if p2 and
+                            p2["iobuf_size"] != pr["iobuf_size"] else [])}
 
 
 CLAUSES = [
